@@ -145,7 +145,8 @@ def run(case, j):
     A = sel.items(X, axis)
     scale = max(float(np.abs(D).max()), float((A**2).sum(axis=1).max()), 1e-300)
     if spec["cls"] == "PCovFPS":
-        scale = max(scale, float(np.abs(D).max()))
+        # d = |a|^2 + |b|^2 - 2ab in the MODIFIED metric: its rounding scales with those norms (large targets make them large)
+        scale = max(scale, float(np.abs(D).max()), float(np.abs(getattr(sel.fps_distance_matrix, "last_norms", np.zeros(1))).max()))
     tol = 1e-11 * scale  # |a|^2 + |b|^2 - 2ab carries ~1e-15 x scale of rounding
     if spec["cls"] == "PCovFPS" and axis == 1:
         # the feature-space metric goes through (X^T X)^(-1/2) restricted to the kept eigenvalues: its rounding error is
